@@ -850,24 +850,16 @@ func (g *Generator) getMethodPath(method *protogen.Method, basePath string, pack
 	// Try to get custom path from options
 	customPath := g.getCustomPath(method)
 
-	// If we have both base path and custom path, combine them
-	if basePath != "" && customPath != "" {
-		// Ensure proper path joining
-		basePath = strings.TrimSuffix(basePath, "/")
-		if !strings.HasPrefix(customPath, "/") {
-			customPath = "/" + customPath
-		}
-		return basePath + customPath
-	}
-
-	// If only custom path, use it
+	// A custom path is joined with the base path exactly as the clients, the TS server
+	// and the OpenAPI document do (leading slashes are added where they are missing)
 	if customPath != "" {
-		return customPath
+		return annotations.BuildHTTPPath(basePath, customPath)
 	}
 
 	// Generate default path
 	if basePath != "" {
-		return fmt.Sprintf("%s/%s", strings.TrimSuffix(basePath, "/"), camelToSnake(method.GoName))
+		basePath = strings.TrimSuffix(annotations.EnsureLeadingSlash(basePath), "/")
+		return fmt.Sprintf("%s/%s", basePath, camelToSnake(method.GoName))
 	}
 
 	return fmt.Sprintf("/%s/%s", packageName, camelToSnake(method.GoName))
